@@ -28,7 +28,9 @@ def surface_timeseries(
 
     nfft = (int(signal_length) // 2) * 2
 
-    frequencies = np.linspace(0, 0.5 * sampling_frequency, nfft // 2, endpoint=False)
+    # A real signal of nfft samples has nfft // 2 + 1 Fourier bins (zero up to
+    # and including the Nyquist frequency).
+    frequencies = np.linspace(0, 0.5 * sampling_frequency, nfft // 2 + 1)
 
     time = np.linspace(0, nfft / sampling_frequency, nfft, endpoint=False)
 
